@@ -24,6 +24,7 @@ class Variant:
     new: str
     expect: str = "fire"    # fire | silent
     must_mention: str = ""  # substring expected in the report line
+    transform: tuple = ()   # ("reformat",) or ("rename", function, old, new): AST-level edit instead of old/new text
 
 
 V = Variant
@@ -76,7 +77,7 @@ VARIANTS = [
     V("token drops method", ("C14",), "R-TOKEN", "core.py", 'tokenize(array, by, agg, expected_groups, axis, method, sort)', 'tokenize(array, by, agg, expected_groups, axis, sort)', must_mention="method"),
     V("constant preprocess layer name", ("C14",), "R-TOKEN", "aggregations.py", '        token="groupby-argreduce-preprocess",', '        name="groupby-argreduce-preprocess",', must_mention="argreduce_preprocess"),
     V("__dask_tokenize__ drops min_count", ("C14", "C09"), "R-TOKEN", "aggregations.py", '            self.min_count,\n', '', must_mention="min_count"),
-    V("cohort subset named without tokenize", ("C14", "C09"), "R-TOKEN", "core.py", 'name = "groupby-cohort-" + tokenize(array, index)', 'name = "groupby-cohort-subset"', must_mention="subset_to_blocks"),
+    V("cohort subset named without tokenize", ("C14", "C09"), "R-TOKEN", "core.py", 'name = "groupby-cohort-" + tokenize(array, index, reindexer)', 'name = "groupby-cohort-subset"', must_mention="subset_to_blocks"),
     V("cohort subset token without the reindexer", ("C14", "C09"), "R-TOKEN", "core.py", 'tokenize(array, index, reindexer)', 'tokenize(array, index)', must_mention="reindexer"),
     V("twin: more ingredients in the token", ("C14",), "", "core.py", 'tokenize(array, by, agg, expected_groups, axis, method, sort)', 'tokenize(array, by, agg, expected_groups, axis, method, sort, engine, reindex)', expect="silent"),
     V("level dropped from intermediate name", ("C03",), "R-KEYS", "dask_array_ops.py", 'newname = name + f"-{block_index}-partial-{level}"', 'newname = name + f"-{block_index}-partial"', must_mention="_tree_reduce"),
@@ -113,6 +114,8 @@ VARIANTS = [
     V("chunk_reduce forgets nanquantile's new axis", ("C18",), "R-BLOCKONLY", "core.py", '            if reduction in ("quantile", "nanquantile"):', '            if reduction in ("quantile",):', must_mention="newdims"),
     V("all-NaN detector without valid count", ("C20",), "R-COLLIDE", "aggregate_flox.py", '            allnangroups &= nvalid == 0\n', '', must_mention="_nan_grouped_op"),
     V("all-NaN detector counts filled members", ("C20",), "R-COLLIDE", "aggregate_flox.py", '            allnangroups &= nvalid == 0\n', '            allnangroups &= nvalid > 0\n', must_mention="_nan_grouped_op"),
+    V("variance shift before the widening cast", ("C20", "C01"), "R-VARSHIFT", "aggregate_npg.py", '    array = array.astype(dtype, copy=False)\n    first = _get_aggregate(engine).aggregate(group_idx, array, func="nanfirst", axis=axis)\n    array = array - first[..., group_idx]', '    first = _get_aggregate(engine).aggregate(group_idx, array, func="nanfirst", axis=axis)\n    array = (array - first[..., group_idx]).astype(dtype, copy=False)', must_mention="_var_std_wrapper"),
+    V("variance cast dtype from a weak Python scalar", ("C20", "C01"), "R-VARSHIFT", "aggregate_npg.py", 'dtype = np.result_type(array, np.int8(-1) * array[0])', 'dtype = np.result_type(array, -1)', must_mention="_var_std_wrapper"),
     V("reduceat without dtype", ("C20",), "R-CASTORDER", "aggregate_flox.py", '        op(array, inv_idx, axis=axis, dtype=dtype, out=out, **kwargs)', '        op(array, inv_idx, axis=axis, out=out, **kwargs)', must_mention="_np_grouped_op"),
     V("numbagg casts input to requested dtype", ("C20",), "R-CASTORDER", "aggregate_numbagg.py", '    func_ = getattr(numbagg.grouped, f"group_{func}")\n', '    if dtype is not None:\n        array = array.astype(dtype)\n    func_ = getattr(numbagg.grouped, f"group_{func}")\n', must_mention="_numbagg_wrapper"),
     # ---------------- wiring rules
@@ -140,11 +143,73 @@ VARIANTS = [
 ]
 
 
+ALL_PROPS = ("C01", "C02", "C03", "C04", "C05", "C06", "C07", "C08", "C09", "C10", "C11", "C12", "C13", "C14", "C16", "C18", "C19", "C20")
+VARIANTS += [
+    V("twin: whole package reformatted, comments dropped (ast.unparse)", ALL_PROPS, "", "core.py", "", "", expect="silent", transform=("reformat",)),
+    V("twin: rename result -> res_ in groupby_reduce", ("C16", "C12", "C05", "C08"), "", "core.py", "", "", expect="silent", transform=("rename", "groupby_reduce", "result", "res_")),
+    V("twin: rename groups_ -> grps in groupby_reduce", ("C16", "C12"), "", "core.py", "", "", expect="silent", transform=("rename", "groupby_reduce", "groups_", "grps")),
+    V("twin: rename by_ -> codes_ in groupby_reduce", ("C08", "C12", "C16"), "", "core.py", "", "", expect="silent", transform=("rename", "groupby_reduce", "by_", "codes_")),
+    V("twin: rename agg -> bp in _initialize_aggregation", ("C04", "C05", "C14", "C02"), "", "aggregations.py", "", "", expect="silent", transform=("rename", "_initialize_aggregation", "agg", "bp")),
+    V("twin: rename label_chunks -> lc in find_group_cohorts", ("C09", "C02", "C03"), "", "core.py", "", "", expect="silent", transform=("rename", "find_group_cohorts", "label_chunks", "lc")),
+    V("twin: rename merged_cohorts -> mc in find_group_cohorts", ("C09", "C03", "C06"), "", "core.py", "", "", expect="silent", transform=("rename", "find_group_cohorts", "merged_cohorts", "mc")),
+    V("twin: rename counts -> cnt in _finalize_results", ("C05", "C11"), "", "core.py", "", "", expect="silent", transform=("rename", "_finalize_results", "counts", "cnt")),
+    V("twin: rename reindexer -> rx in dask_groupby_agg", ("C02", "C14"), "", "core.py", "", "", expect="silent", transform=("rename", "dask_groupby_agg", "reindexer", "rx")),
+    V("twin: rename reindexed -> out_ in reindex_", ("C19", "C13"), "", "core.py", "", "", expect="silent", transform=("rename", "reindex_", "reindexed", "out_")),
+    V("twin: rename token -> tok in dask_groupby_agg", ("C14", "C09"), "", "core.py", "", "", expect="silent", transform=("rename", "dask_groupby_agg", "token", "tok")),
+]
+
+
 def _run_variant(v: Variant, prop: str, root: str) -> dict:
     d = tempfile.mkdtemp(prefix="v_", dir=root)
     try:
         shutil.copytree(os.path.join(REPO, "flox"), os.path.join(d, "flox"), ignore=shutil.ignore_patterns("__pycache__"))
         path = os.path.join(d, "flox", v.file)
+        if v.transform:
+            import ast as _ast
+            if v.transform[0] == "reformat":
+                import glob as _glob
+                for fp in _glob.glob(os.path.join(d, "flox", "*.py")):
+                    with open(fp) as fh:
+                        t = _ast.parse(fh.read())
+                    with open(fp, "w") as fh:
+                        fh.write(_ast.unparse(t) + "\n")
+            elif v.transform[0] == "rename":
+                _, fn, old, new = v.transform
+                with open(path) as fh:
+                    t = _ast.parse(fh.read())
+                hit = [0]
+
+                class R(_ast.NodeTransformer):
+                    inside = 0
+
+                    def visit_FunctionDef(self, n):
+                        if n.name == fn:
+                            self.inside += 1
+                            self.generic_visit(n)
+                            self.inside -= 1
+                        else:
+                            self.generic_visit(n)
+                        return n
+
+                    def visit_Name(self, n):
+                        if self.inside and n.id == old:
+                            n.id = new
+                            hit[0] += 1
+                        return n
+                t = R().visit(t)
+                if not hit[0]:
+                    return {"variant": v.name, "property": prop, "status": "skipped", "why": f"{fn}.{old} not found"}
+                with open(path, "w") as fh:
+                    fh.write(_ast.unparse(t) + "\n")
+            env = dict(os.environ, FLOXSA_REPO=d, FLOXSA_NOWRITE="1", PYTHONDONTWRITEBYTECODE="1")
+            verif = os.path.dirname(os.path.dirname(os.path.abspath(__file__)))
+            r = subprocess.run([sys.executable, "-B", "-m", "floxsa", prop, "--tier", "quick"], cwd=verif, env=env, capture_output=True, text=True, timeout=600)
+            reports = [l for l in r.stdout.splitlines() if l.strip().startswith("REPORT") or "ANALYSIS-ERROR" in l]
+            out = {"variant": v.name, "property": prop, "expect": v.expect, "exit": r.returncode, "reports": len(reports)}
+            out["status"] = "silent_ok" if r.returncode == 0 else "FALSE-ALARM"
+            if out["status"] == "FALSE-ALARM":
+                out["why"] = reports[:2] or r.stdout.splitlines()[-2:]
+            return out
         with open(path) as fh:
             src = fh.read()
         if src.count(v.old) != 1:
